@@ -87,7 +87,12 @@ func (k *Keeper) NewEVM(
 			}
 
 			metadata := contract.GetMetadata()
-			contracts = append(contracts, corevm.NewCustomPrecompiledContract(common.BytesToAddress(metadata.Address), methods, metadata.Name))
+			contract := corevm.NewCustomPrecompiledContract(common.BytesToAddress(metadata.Address), methods, metadata.Name)
+			if cpc, ok := contract.(*corevm.CustomPrecompiledContract); ok {
+				// a contract which marked as disabled must not be executable
+				contract = cpc.WithDisabled(metadata.Disabled)
+			}
+			contracts = append(contracts, contract)
 		}
 		evm = evm.WithCustomPrecompiledContracts(contracts...)
 	}
